@@ -197,6 +197,17 @@ func Apply(fs FS, root string, o Op, seq int) error {
 			return fmt.Errorf("not applicable")
 		}
 		return fs.Rename(dir, filepath.Join(outside, fmt.Sprintf("diraway%d", seq)))
+	case "mvdir-away-deleted":
+		// the Spec directory is renamed away and the moved directory is deleted at once (the usual
+		// way to replace a directory: move the old one aside, delete it)
+		if !exists(dir) {
+			return fmt.Errorf("not applicable")
+		}
+		moved := filepath.Join(outside, fmt.Sprintf("dirgone%d", seq))
+		if err := fs.Rename(dir, moved); err != nil {
+			return err
+		}
+		return fs.RemoveAll(moved)
 	case "mvdir-in":
 		// a directory prepared elsewhere (holding one Spec file) is renamed to the Spec directory's name
 		if exists(dir) {
@@ -237,7 +248,7 @@ func Alphabet(dirs []string, optionalDirs []string) []Op {
 	for _, d := range optionalDirs {
 		ops = append(ops, Op{Kind: "mkdir", Dir: d}, Op{Kind: "rmtree", Dir: d})
 		ops = append(ops, Op{Kind: "mvdir-away", Dir: d}, Op{Kind: "mvdir-in", Dir: d, Name: "x.yaml", Content: "A"})
-		ops = append(ops, Op{Kind: "recreate", Dir: d})
+		ops = append(ops, Op{Kind: "recreate", Dir: d}, Op{Kind: "mvdir-away-deleted", Dir: d})
 	}
 	return ops
 }
